@@ -177,6 +177,12 @@ func (r *runReport) fail(id, what string, c any) {
 	r.OracleFails = append(r.OracleFails, oracleFail{ID: id, What: what, Case: c})
 }
 
+// failKnown records an oracle failure that falls into the known-finding class `known` (id in known_findings).
+func (r *runReport) failKnown(id, what string, c any, known string) {
+	r.OracleFails = append(r.OracleFails, oracleFail{ID: id, What: what, Case: c, Known: known})
+	r.Known[known]++
+}
+
 func (r *runReport) write(path string) {
 	b, err := json.MarshalIndent(r, "", " ")
 	if err != nil {
